@@ -1021,8 +1021,9 @@ MANIFEST = {
     "unfinished & has samples => completed < total); accounting_linearizable (for every schedule the counters, descriptions "
     "and fields equal the sequential history in lock-acquisition order) with completed_exact_all_schedules; "
     "refresh_threads_harmless (refresh/start/stop, any number of refresh threads, never change the task table); "
-    "fixed_schedules_are_sequential + speed_nonneg_all_schedules for today's code (clock read under the lock), the "
-    "machine-checked witness old_speed_negative_under_schedule of the repaired defect F21; task_ids_distinct, "
+    "fixed_schedules_are_sequential + speed_nonneg_all_schedules for the code in /repo now (fix b790bf0: clock read under "
+    "the lock, clockOutside = false), the machine-checked witness old_speed_negative_under_schedule of the repaired defect "
+    "F21 (rich 9.10.0 as found, clockOutside = true) with fixed_speed_under_same_schedule; task_ids_distinct, "
     "task_ids_never_reused, add_task_id_fresh; elapsed_nonneg (elapsed and recorded finish time are >= 0 unless a stopped "
     "task is reset) with the witness reset_after_stop_negative_elapsed showing that case satisfies every clause of C12; "
     "track_counts / track_thread_counts (any batching by the helper thread). Tie: the model is run against real rich on an "
@@ -1046,6 +1047,9 @@ MANIFEST = {
     "Outside the statement (decided on the real code, see Props/C12.lean): reset() does not clear stop_time, so elapsed / "
     "the recorded finish time are negative for a task reset while stopped; every clause of C12 still holds of it. "
     "The real-timing track() runs are not seed-replayable (they only evaluate the statement). Generators run in worker "
-    "processes with rngs derived from (seed, job key), so a seed replays.",
+    "processes with rngs derived from (seed, job key), so a seed replays. Variant flag: CLOCK_OUTSIDE = 0 (the code in "
+    "/repo after fix b790bf0; 1 = rich 9.10.0 as found, Cfg.clockOutside = true in the model). No known finding is open "
+    "for C12, so the check prints no KNOWN-FINDING line; a deque out of timestamp order under a schedule (the F21 shape, "
+    "classified as advance-clock-read-outside-lock) is a violation.",
     "design_ref": "DESIGN.md section 7, C12; pre-finding F21 (section 8)",
 }
